@@ -193,6 +193,13 @@ package stack
 // likeness is a function of the value; too-large leaves are zero and unnamed).
 //@ func parseArgs
 //@   modifies nothing
+//@   gvar tokN int
+//@   gvar tokB [int]int
+//@   gvar numTok string
+//@   update after-call trimCurlyBrackets#1: tokN := len(ret1); tokB := lambda k :: ret1[k]
+//@   update after-call unsafeString#1: numTok := ret0
+//@   assert after-store Args.Values#3: [leafValueIsTheTokenNumber C01] len(cur.Values) >= 1 && cur.Values[len(cur.Values)-1].Value == parseUintVal(numTok, 0, 64)
+//@   assert after-store Args.Values#3: [inaccurateMarkIsTheQuestionMark C01] len(cur.Values) >= 1 && (cur.Values[len(cur.Values)-1].IsInaccurate <==> (tokN >= 1 && tokB[tokN-1] == 63)) && len(numTok) == tokN - (cur.Values[len(cur.Values)-1].IsInaccurate ? 1 : 0) && (forall k :: 0 <= k && k < len(numTok) ==> numTok[k] == tokB[k])
 //@   ensures [errorGivesEmptyArgs C01] result1 != nil ==> len(result0.Values) == 0 && !result0.Elided
 //@   assert after-store Args.Values#2: [tooLargeLeafIsWellFormed C01 C05] len(cur.Values) >= 1 && cur.Values[len(cur.Values)-1].IsOffsetTooLarge && cur.Values[len(cur.Values)-1].Value == 0 && !cur.Values[len(cur.Values)-1].IsPtr && cur.Values[len(cur.Values)-1].Name == "" && !cur.Values[len(cur.Values)-1].IsAggregate
 //@   assert after-store Args.Values#3: [pointerLikenessDependsOnValueOnly C01] len(cur.Values) >= 1 && (cur.Values[len(cur.Values)-1].IsPtr <==> (pointerFloor < cur.Values[len(cur.Values)-1].Value && cur.Values[len(cur.Values)-1].Value < pointerCeiling)) && cur.Values[len(cur.Values)-1].Name == "" && !cur.Values[len(cur.Values)-1].IsAggregate && !cur.Values[len(cur.Values)-1].IsOffsetTooLarge && (cur.Values[len(cur.Values)-1].IsInaccurate <==> inaccurate)
